@@ -596,14 +596,12 @@ func (p *Parser) parseSlots() []*ast.SlotStmt {
 			if !p.expectPeek(token.RPAREN) { // move to ")"
 				return nil
 			}
-
-			p.nextToken() // skip ")"
 		}
 
 		slots = append(slots, &ast.SlotStmt{
 			Token: tok, // "@slot"
 			Name:  slotName,
-			Body:  p.parseBlockStmt(),
+			Body:  p.parseBody(),
 		})
 
 		p.nextToken() // skip block statement
@@ -677,8 +675,7 @@ func (p *Parser) parseInsertStmt() ast.Statement {
 	}
 
 	if hasBody {
-		p.nextToken() // skip ")"
-		stmt.Block = p.parseBlockStmt()
+		stmt.Block = p.parseBody()
 	}
 
 	p.inserts[stmt.Name.Value] = stmt
@@ -824,9 +821,7 @@ func (p *Parser) parseIfStmt() *ast.IfStmt {
 		return nil
 	}
 
-	p.nextToken() // skip ")"
-
-	stmt.Consequence = p.parseBlockStmt()
+	stmt.Consequence = p.parseBody()
 
 	for p.peekTokenIs(token.ELSE_IF) {
 		alt := p.parseElseIfStmt()
@@ -867,20 +862,17 @@ func (p *Parser) parseElseIfStmt() *ast.ElseIfStmt {
 		return nil
 	}
 
-	p.nextToken() // skip ")"
-
 	return &ast.ElseIfStmt{
 		Token:       p.curToken,
 		Condition:   condition,
-		Consequence: p.parseBlockStmt(),
+		Consequence: p.parseBody(),
 	}
 }
 
 func (p *Parser) parseAlternativeBlock() *ast.BlockStmt {
 	p.nextToken() // move to "@else"
-	p.nextToken() // skip "@else"
 
-	alt := p.parseBlockStmt()
+	alt := p.parseBody()
 
 	if p.peekTokenIs(token.ELSE_IF) {
 		p.newError(p.peekToken.ErrorLine(), fail.ErrElseifCannotFollowElse)
@@ -925,13 +917,11 @@ func (p *Parser) parseForStmt() *ast.ForStmt {
 		return nil
 	}
 
-	p.nextToken() // skip ")"
-
-	stmt.Block = p.parseBlockStmt()
+	stmt.Block = p.parseBody()
 
 	if p.peekTokenIs(token.ELSE) {
-		p.nextToken() // skip "@else"
-		stmt.Alternative = p.parseBlockStmt()
+		p.nextToken() // move to "@else"
+		stmt.Alternative = p.parseBody()
 	}
 
 	if !p.expectPeek(token.END) { // move to "@end"
@@ -967,13 +957,11 @@ func (p *Parser) parseEachStmt() *ast.EachStmt {
 		return nil
 	}
 
-	p.nextToken() // skip ")"
-
-	stmt.Block = p.parseBlockStmt()
+	stmt.Block = p.parseBody()
 
 	if p.peekTokenIs(token.ELSE) {
-		p.nextToken() // skip "@else"
-		stmt.Alternative = p.parseBlockStmt()
+		p.nextToken() // move to "@else"
+		stmt.Alternative = p.parseBody()
 	}
 
 	if !p.expectPeek(token.END) { // move to "@end"
@@ -981,6 +969,19 @@ func (p *Parser) parseEachStmt() *ast.EachStmt {
 	}
 
 	return stmt
+}
+
+// parseBody parses the statements that follow the current token
+// up to "@end", "@else" or "@elseif". The body may be empty, in which
+// case the current token does not move
+func (p *Parser) parseBody() *ast.BlockStmt {
+	if p.peekTokenIs(token.ELSE, token.ELSE_IF, token.END) {
+		return &ast.BlockStmt{Token: p.peekToken}
+	}
+
+	p.nextToken() // move to the first token of the body
+
+	return p.parseBlockStmt()
 }
 
 func (p *Parser) parseBlockStmt() *ast.BlockStmt {
